@@ -33,7 +33,9 @@ RULE = ("labels: random number trees (leaf-only, balanced, degenerate chains, co
         "First/Next links were rewired into cycles / shared / dangling links (tie and termination only); names: random name "
         "trees (same shapes, Limits tight) with present and absent keys (below, between, above, prefixes/extensions of "
         "keys, str names against the PDF-1.1 Dests dictionary); text: random strings in both encodings incl. surrogate "
-        "pairs, every PDFDocEncoding byte; formatters: roman exhaustively 1..3999, alpha 1..N.  A case is non-trivial "
+        "pairs, every PDFDocEncoding byte; every labels / outline / names case is also observed repeatedly on ONE "
+        "PDFDocument (second pass, interleaved generators, reverse order), with nested page trees, page selection, "
+        "indirect scalar values and caching=False; formatters: roman exhaustively 1..3999, alpha 1..N.  A case is non-trivial "
         "when it is a distinct input with >= 2 ranges / >= 2 outline items / a tree with Kids / a non-ASCII string.")
 TRUSTED_BASE = [
     "tools/translate/gen_c17.py (Python ast -> Lean) for ROMAN_ONES, ROMAN_FIVES, PDFDocEncoding - each translated "
